@@ -306,6 +306,52 @@ def check_idents(idents):
     impl = run_par("impl", lines, "ident")
     return set(i for i, a in zip(ids, impl) if a != "ok true"), lines, impl
 
+def m3_stage(ctx, strings, snake_of, pascal_of):
+    """The serde clause on COMPILED generated code (batch pipeline, DESIGN 3.3 M3): for a sample of names, a struct with
+    that one required property and an enum with that one value are generated by the real typify, compiled, and driven:
+    {"<name>": "v"} must deserialize and serialize back to exactly {"<name>": "v"}; "<name>" likewise for the enum; and
+    when the identifier differs from the name, {"<ident>": "v"} must be rejected (bound to *exactly* the original)."""
+    import batch
+    from batch import Batch, canon
+    n = 600 if ctx.tier == "thorough" else 90
+    ok_name = lambda s: "{" not in s and "}" not in s          # braces in enum values break the Display template (C01's defect)
+    pool = [s for s in strings if ok_name(s)]
+    fixed = [s for s in SPECIALS if ok_name(s)] + KW_FALLBACK[:12]
+    names = list(dict.fromkeys(fixed + ctx.rng.sample(pool, min(len(pool), n))))[:n + len(fixed)]
+    b = Batch(ctx, shards=12, assertions=False, ops=("rt", "de"), ops_for="named")
+    cases = []
+    for nm in names:
+        st = {"title": "S", "type": "object", "properties": {nm: {"type": "string"}}, "required": [nm]}
+        en = {"title": "E", "type": "string", "enum": [nm]}
+        cases.append((nm, b.add_case([{"type": st, "name": None}, {"type": en, "name": None}], tag=nm[:30])))
+    b.prepare(); b.build()
+    reqs = []; meta = []
+    for nm, c in cases:
+        reqs.append((c, "S", "rt", batch.J({nm: "v"}))); meta.append((nm, "struct-rt"))
+        reqs.append((c, "E", "rt", batch.J(nm))); meta.append((nm, "enum-rt"))
+        idn = snake_of.get(nm)
+        if idn is not None and idn != nm:
+            reqs.append((c, "S", "de", batch.J({idn: "v"}))); meta.append((nm, "struct-ident-key"))
+        idp = pascal_of.get(nm)
+        if idp is not None and idp != nm:
+            reqs.append((c, "E", "de", batch.J(idp))); meta.append((nm, "enum-ident-value"))
+    ans = b.run(reqs)
+    fails = []; counts = {}
+    for (c, ty, op, payload), (nm, what), a in zip(reqs, meta, ans):
+        st, parts = batch.split_answer(a)
+        good = False
+        if what.endswith("-rt"):
+            good = st == "ok" and len(parts) == 2 and canon(parts[0]) == canon(payload) and canon(parts[1]) == canon(payload)
+        else:
+            good = st == "err"
+        counts[what] = counts.get(what, 0) + 1
+        if not good:
+            fails.append({"name": nm, "what": what, "payload": payload, "answer": a[:300], "compiled": c.compiled,
+                          "rustc": [e.get("message") for e in (c.rustc_errors or [])][:2]})
+    return {"names": len(names), "operations": len(reqs), "by_kind": counts, "failures": len(fails),
+            "compiled_cases": sum(1 for _, c in cases if c.compiled), "cases": len(cases),
+            "sample": [reqs[0][3], reqs[1][3], ans[0], ans[1]]}, fails
+
 def run(ctx):
     findings = vlib.load_findings("C08")
     st = vlib.proof_stage(ctx, "C08", PROOF_TARGETS, PROOF_FILES, slices=["c08"])
@@ -353,6 +399,19 @@ def run(ctx):
         l = "recase %s %s" % ("pascal" if b.get("pascal") else "snake", J(b.get("name", "")))
         raw_fail.append((l, "ok " + J([b.get("ident"), b.get("rename")]), "unicode-sweep", b))
     ctx.log("unicode sweep: %d names checked, %d bad" % (sweep_checked, len(sweep_bad)))
+    # ---- the serde clause on compiled generated code (M3)
+    m3 = {"available": False}
+    try:
+        m3, m3_fails = m3_stage(ctx, strings, snake_of, pascal_of)
+        m3["available"] = True
+        for f in m3_fails[:3]:
+            kd = "props" if f["what"].startswith("struct") else "variants"
+            raw_fail.append(("%s %s" % (kd, J([f["name"]])), f["answer"], "compiled-" + f["what"], f))
+        ctx.log("M3: %d names, %d operations on compiled generated code, %d failures" % (m3["names"], m3["operations"], m3["failures"]))
+    except Exception as e:  # the pipeline is shared machinery; its absence is reported, not hidden
+        m3["error"] = repr(e)[:300]
+        ctx.notes.append("M3 stage (compiled-code round trip) did not run: %r" % (e,))
+        ctx.log("M3 stage did not run:", repr(e)[:200])
     bad_idents, lines3, impl3 = check_idents(all_idents)
     model3 = run_par("model", lines3, "ident") if model_ok else None
     for l, a, ids in zip(lines, impl, per_line_idents):
@@ -434,6 +493,7 @@ def run(ctx):
             "unicode_sweep": "every Unicode scalar value c as the names c, 'a'+c, c+'a', 'A'+c+'b' through the real recase in both cases: identifier accepted by syn, rename present iff identifier differs",
             "unicode_sweep_names_checked": sweep_checked, "unicode_sweep_failures": len(sweep_bad),
         },
+        "compiled_code_roundtrip_M3": m3,
         "generation": gen_info,
         "identifiers_checked_by_syn": len(lines3), "identifiers_rejected_by_syn": len(bad_idents),
         "answer_distribution": dict(sorted(branches.items(), key=lambda kv: -kv[1])[:30]),
@@ -442,7 +502,7 @@ def run(ctx):
     vlib.write_evidence(ctx, "proof", cov, [
         "domain of the theorems: ASCII names of any length; Rust's char::is_alphanumeric/is_lowercase/is_uppercase/to_lowercase/to_uppercase and unicode_ident::is_xid_start/is_xid_continue restricted to ASCII are Lean's Char.isAlphanum/isLower/isUpper/toLower/toUpper/isAlpha (+ '_')",
         "syn::parse_str::<syn::Ident> on a string of identifier shape fails exactly on the keyword list of syn's accept_as_ident and on `_` (list compared with the locked syn through the isident requests)",
-        "the 'found under that name when deserializing / written when serializing' clause is covered at the level of the emitted serde attributes (to_stream parsed by syn: identifier and #[serde(rename)] of every field/variant); serde_derive's run-time behaviour on compiled code is exercised by the M3 pipeline, not here",
+        "the 'found under that name when deserializing / written when serializing' clause is proved at the level of the emitted serde attributes (Names.wireName; the emitted items are parsed by syn in the correspondence: identifier and #[serde(rename)] of every field/variant); that serde_derive reads/writes exactly that name is not modelled in Lean: it is exercised on compiled generated code for a sample of names (coverage.compiled_code_roundtrip_M3, tools/batch.py)",
         "schemars' property map is a BTreeMap (properties reach struct_members sorted by JSON name); sort_by is stable",
     ])
 
